@@ -14,6 +14,9 @@
 #include <string>
 #include <iterator>
 #include <functional>
+#include <errno.h>
+#include <limits.h>
+#include <stdlib.h>
 #ifndef VF_STRCAP
 #define VF_STRCAP 40
 #endif
@@ -258,9 +261,31 @@ inline vf_string operator+(const vf_string& a, char b) { vf_string r(a); r.push_
 inline vf_string operator+(char a, const vf_string& b) { vf_string r(1, a); r.append(b); return r; }
 inline void swap(vf_string& a, vf_string& b) { a.swap(b); }
 template <> struct hash<vf_string> { size_t operator()(const vf_string& s) const { size_t h = 1469598103934665603ull; for (size_t i = 0; i < vf_string::CAP; ++i) if (i < s.n_) h = (h ^ static_cast<unsigned char>(s.b_[i])) * 1099511628211ull; return h; } };
-inline unsigned long stoul(const vf_string& s, size_t *idx = nullptr, int base = 10) { return std::stoul(std::basic_string<char>(s), idx, base); }
-inline long stol(const vf_string& s, size_t *idx = nullptr, int base = 10) { return std::stol(std::basic_string<char>(s), idx, base); }
-inline int stoi(const vf_string& s, size_t *idx = nullptr, int base = 10) { return std::stoi(std::basic_string<char>(s), idx, base); }
+// as libstdc++'s __stoa: strtol/strtoul on the characters, invalid_argument if nothing was converted, out_of_range on ERANGE
+inline long stol(const vf_string& s, size_t *idx = nullptr, int base = 10)
+{
+  char *e = nullptr; errno = 0;
+  const long v = strtol(s.c_str(), &e, base);
+  if (e == s.c_str()) std::__throw_invalid_argument("stol");
+  if (errno == ERANGE) std::__throw_out_of_range("stol");
+  if (idx) *idx = static_cast<size_t>(e - s.c_str());
+  return v;
+}
+inline unsigned long stoul(const vf_string& s, size_t *idx = nullptr, int base = 10)
+{
+  char *e = nullptr; errno = 0;
+  const unsigned long v = strtoul(s.c_str(), &e, base);
+  if (e == s.c_str()) std::__throw_invalid_argument("stoul");
+  if (errno == ERANGE) std::__throw_out_of_range("stoul");
+  if (idx) *idx = static_cast<size_t>(e - s.c_str());
+  return v;
+}
+inline int stoi(const vf_string& s, size_t *idx = nullptr, int base = 10)
+{
+  const long v = stol(s, idx, base);
+  if (v < INT_MIN || v > INT_MAX) std::__throw_out_of_range("stoi");
+  return static_cast<int>(v);
+}
 }  // namespace std
 #define string vf_string
 #endif
